@@ -27,6 +27,9 @@ func checkC13(w *World, r *Report) {
 	checkC13Wiring(w, r, d)
 	checkC13Loops(w, r)
 	checkC13Entries(w, r)
+	// an updated route must be the one whose chain runs: a node's route and the sub-node derived from it are only set
+	// together, by the constructor (rule C07.1, repeated here)
+	checkNodeConstruction(w, r, "C13.6")
 }
 
 func checkC13Wiring(w *World, r *Report, d *dispatchInfo) {
